@@ -235,6 +235,15 @@ Definition js_step (st : jstate) (ev : event) (outs : list (bytes * bytes)) : js
       base (js_backends st) (js_conns st) (js_next_conn st) ln
   end.
 
+(* ... and the connections that are gone after the event: the one the client closed (EvTcpClose), and those the
+   proxy was seen to close (after bytes that do not decode) *)
+Definition js_step_c (st : jstate) (ev : event) (outs : list (bytes * bytes)) (closed : list nat) : jstate :=
+  let st' := js_step st ev outs in
+  let gone := (match ev with EvTcpClose c => [c] | _ => [] end) ++ closed in
+  {| js_backends := js_backends st';
+     js_conns := filter (fun x => negb (existsb (Nat.eqb (fst x)) gone)) (js_conns st');
+     js_next_conn := js_next_conn st'; js_learned := js_learned st'; js_event := js_event st' |}.
+
 (* generic driver: [f] judges one event given the bookkeeping BEFORE it; the verdict is the
    index of the first offending event and a reason code *)
 Fixpoint j_run (f : proxy_case -> jstate -> event -> list (bytes * bytes) -> list nat -> nat)
@@ -243,7 +252,7 @@ Fixpoint j_run (f : proxy_case -> jstate -> event -> list (bytes * bytes) -> lis
   match evs, obs with
   | ev :: er, (outs, closed) :: or_ =>
       match f c st ev outs closed with
-      | O => j_run f c (js_step st ev outs) er or_
+      | O => j_run f c (js_step_c st ev outs closed) er or_
       | why => Some (js_event st, why)
       end
   | _, _ => None
